@@ -222,11 +222,15 @@ func runTiny(p TinyPlan, record, pace bool) *tinyResult {
 	partiesLeft.Store(int32(len(p.Parties)))
 	var commits []tinyCommit
 	var wipes []tinyWipe
+	// every goroutine owns ONE key and ONE value buffer for all its arguments (owned.go)
+	cls := make([]*caller, 1+len(p.Parties))
 	wg.Add(1)
 	go func() {
 		defer wg.Done()
 		defer guard("batcher")
 		defer batcherDone.Store(true)
+		cl := newCaller("batcher")
+		cls[0] = cl
 		barrier()
 		for cycle := 0; cycle < tinyMaxCycles && (cycle < len(p.Sizes) || partiesLeft.Load() > 0); cycle++ {
 			tc := tinyCommit{cycle: cycle, size: p.Sizes[cycle%len(p.Sizes)]}
@@ -237,9 +241,9 @@ func runTiny(p TinyPlan, record, pace bool) *tinyResult {
 			}
 			for j := 0; j < tc.size; j++ {
 				if v, del := tc.write(j); del {
-					_ = b.Delete([]byte(tinyBatchKey(j)))
+					_ = cl.BDelete(b, tinyBatchKey(j))
 				} else {
-					_ = b.Set([]byte(tinyBatchKey(j)), []byte(v))
+					_ = cl.BSet(b, tinyBatchKey(j), v)
 				}
 			}
 			inCommit.Store(true)
@@ -247,6 +251,7 @@ func runTiny(p TinyPlan, record, pace bool) *tinyResult {
 			err = b.Commit()
 			tc.ret = now()
 			inCommit.Store(false)
+			cl.batchDone() // the values of the batch are overwritten now that Commit has returned
 			if err != nil {
 				tc.err = err.Error()
 				fail("Commit: " + err.Error())
@@ -261,7 +266,7 @@ func runTiny(p TinyPlan, record, pace bool) *tinyResult {
 				if p.WipeClear {
 					err = bnested.Clear()
 				} else {
-					err = bview.DeletePrefix([]byte("b"))
+					err = cl.DeletePrefix(bview, "b")
 				}
 				w.ret = now()
 				if err != nil {
@@ -280,6 +285,8 @@ func runTiny(p TinyPlan, record, pace bool) *tinyResult {
 			defer partiesLeft.Add(-1)
 			who := fmt.Sprintf("party %d (%s)", pi, pt.Role)
 			defer guard(who)
+			cl := newCaller(who)
+			cls[1+pi] = cl
 			rng := rand.New(rand.NewSource(p.Seed + int64(pi)*7919))
 			first, fam := "x", 3 // "x<party>." / "b000": the party's key family, at most 100 batch keys
 			if pt.Role == "batchkeys" {
@@ -297,23 +304,23 @@ func runTiny(p TinyPlan, record, pace bool) *tinyResult {
 			var seen []string              // batchkeys: (some of the) keys delivered by its latest iteration
 			observe := func(k string, afterSet bool) {
 				o := tinyObs{key: k, anchor: k, by: who, afterSet: afterSet}
-				arg := func(full string) []byte { return []byte(strings.TrimPrefix(full, realm)) }
+				arg := func(full string) string { return strings.TrimPrefix(full, realm) }
 				x := rng.Intn(12)
 				switch {
 				case x < 2:
 					o.kind = "get"
 					o.call = now()
-					val, err := v.Get(arg(k))
+					val, err := cl.Get(v, arg(k))
 					o.ret = now()
 					if err != nil && !errors.Is(err, kvstore.ErrKeyNotFound) {
 						fail(who + " Get: " + err.Error())
 						return
 					}
-					o.found, o.val = err == nil, string(val)
+					o.found, o.val = err == nil, val
 				case x < 3:
 					o.kind = "has"
 					o.call = now()
-					has, err := v.Has(arg(k))
+					has, err := cl.Has(v, arg(k))
 					o.ret = now()
 					if err != nil {
 						fail(who + " Has: " + err.Error())
@@ -341,12 +348,12 @@ func runTiny(p TinyPlan, record, pace bool) *tinyResult {
 					if x < 9 {
 						o.kind = "iterate"
 						o.call = now()
-						err = v.Iterate(arg(pf), func(kk, vv []byte) bool { o.items[realm+string(kk)] = string(vv); return true }, dir)
+						err = cl.Iterate(v, arg(pf), func(kk, vv string) bool { o.items[realm+kk] = vv; return true }, dir)
 						o.ret = now()
 					} else {
 						o.kind = "iteratekeys"
 						o.call = now()
-						err = v.IterateKeys(arg(pf), func(kk []byte) bool { o.items[realm+string(kk)] = ""; return true }, dir)
+						err = cl.IterateKeys(v, arg(pf), func(kk string) bool { o.items[realm+kk] = ""; return true }, dir)
 						o.ret = now()
 					}
 					if err != nil {
@@ -385,7 +392,7 @@ func runTiny(p TinyPlan, record, pace bool) *tinyResult {
 			}
 			set := func(k, val string) {
 				c := now()
-				err := v.Set([]byte(strings.TrimPrefix(k, realm)), []byte(val))
+				err := cl.Set(v, strings.TrimPrefix(k, realm), val)
 				r := now()
 				if err != nil {
 					fail(who + " Set: " + err.Error())
@@ -394,7 +401,7 @@ func runTiny(p TinyPlan, record, pace bool) *tinyResult {
 			}
 			del := func(k string) {
 				c := now()
-				err := v.Delete([]byte(strings.TrimPrefix(k, realm)))
+				err := cl.Delete(v, strings.TrimPrefix(k, realm))
 				r := now()
 				if err != nil {
 					fail(who + " Delete: " + err.Error())
@@ -477,6 +484,7 @@ func runTiny(p TinyPlan, record, pace bool) *tinyResult {
 		}(pi, pt)
 	}
 	waitRound(&wg, record)
+	own.absorb(map[string]any{"tinyplan": p}, cls...)
 	res.commits, res.wipes = commits, wipes
 	for j := 0; j < maxSize; j++ {
 		k := tinyBatchKey(j)
